@@ -103,6 +103,25 @@ CLAIMED.update({
   tech="Rocq/Coq composition proof (router/writer FIFO + wire round trip + link) and token invariant for the shutdown race + loopback-TCP scenarios + scheduled exploration of the real router/writer", ref="DESIGN.md 0, 6 (C17)"),
 })
 
+ACTOR_TEXT = (" Engine level, all schedules: Coq theorems over the product model Actor.v (inbox x process; threads = spawner, senders, poisoners, inbox workers; "
+  "one step = one scheduler yield point) for every script, number of senders/messages/poisoners and every schedule: %s. Tie: every kept execution of the whole "
+  "engine under the deterministic scheduler (walks + PCT) is restricted to the operations on the target actor and replayed lock-step in the model (part actor_replay).")
+CLAIMED["C02"]["text"] += ACTOR_TEXT % "C02_at_most_one_thread_runs_the_actor, C02_no_two_receives_overlap (no two Receive regions of one actor overlap, lifecycle deliveries on the spawning goroutine included)"
+CLAIMED["C04"]["text"] += ACTOR_TEXT % "C04_lifecycle_word_all_schedules" + " Part engine_stop_race: Stop/Poison racing restarts and active senders on real goroutines."
+CLAIMED["C07"]["text"] += ACTOR_TEXT % "C07_cancel_after_stopped_all_schedules (every cancellation in the log is preceded by the registry removal, itself preceded by the Stopped of cleanup and followed by no delivery)"
+CLAIMED["C02"]["tech"] += " + product model of inbox and process under all schedules with lock-step replay of whole-engine executions"
+CLAIMED["C04"]["tech"] += " + product model of inbox and process under all schedules with lock-step replay of whole-engine executions"
+CLAIMED["C07"]["tech"] += " + product model of inbox and process under all schedules with lock-step replay of whole-engine executions"
+CLAIMED["C14"]["text"] += (" Second tie: tools/ringtrans translates the current ringbuffer.go into terms of a small deep embedding (coq/GoMini.v) on every run and "
+  "coq/RingSrcProofs.v is re-checked against them (C14_src_refines_fifo: every operation sequence on the code as translated now returns what the list queue returns); "
+  "when the source leaves the translated fragment the tie is reported as unavailable in the evidence and the verdict rests on the differential execution.")
+CLAIMED["C14"]["tech"] += " + model regenerated from the source by a translator and proved equivalent"
+CLAIMED["C14"]["note"] += " Translation tie: translator tools/ringtrans and the GoMini semantics are trusted when its status is 'proved'."
+CLAIMED["C12"]["text"] += (" Last sentence of C12: C12_lifecycle_events_published (the published lifecycle events of every run of the process model are exactly those "
+  "the delivery stream calls for; dead letters only after Stopped; per payload delivered + dead-lettered = sent) with C12_oracle_sound, judged on the implementation's "
+  "event stream by part lifecycle_events; the duplicate-id event by part duplicate_id_events (C10_duplicate_is_noop, C10_duplicate_child_is_noop).")
+CLAIMED["C12"]["note"] = "Trusted as C09 and, for the lifecycle clause, as C04 (process model) and C10 (respawn machine)."
+
 
 def chk(pid, d):
     return {"property_id": pid, "quick_cmd": "./check run %s --tier quick" % pid,
